@@ -16,8 +16,8 @@ Three layers, all executable and import-free:
   NLRI length in one octet below 240 and `0xFnnn` otherwise (RFC 8955 §4.1); for flow-vpn the
   8-byte route distinguisher comes first (RFC 8955 §8).
 * **ExaBGP layer** (`exaPack`, `exaDecode`): what `/repo/src/exabgp/bgp/message/update/nlri/flow.py`
-  does, where its mechanism differs: rules are collected in a dict by component ID (`Flow.add`,
-  which silently drops a prefix of the other address family), emitted by `sorted(ID)`, the
+  does, where its mechanism differs: rules are collected in a dict by component ID (`Flow.add`),
+  the family is settled once all rules are known (`Flow.settle_family`), emitted by `sorted(ID)`, the
   end-of-list bit is cleared on every operator and set on the last one, the value width is
   chosen by the `IOperationByte/ByteShort/ByteShortLong.encode` family, IPv6 prefixes are
   written with `ceil(length/8)` bytes of the *address* whatever the offset; the decoder keeps
@@ -469,21 +469,15 @@ inductive ExaErr where
   | tooLong       -- `_encode_length`: Notify(3, 0)
 deriving DecidableEq, Repr
 
-/-- `Flow.add` over the text components: returns (afi is IPv6, kept components in text order).
-    A source/destination prefix whose family differs from the first prefix already stored under the
-    *other* of the two IDs is silently dropped (`return False`, ignored by the caller); any IPv6
-    prefix switches the NLRI's AFI. -/
-def exaAdd : Bool → List TComp → List TComp → Bool × List TComp
-  | v6, kept, [] => (v6, kept)
-  | v6, kept, c :: cs =>
-    if c.isPrefix then
-      let other := if c.ty = 1 then 2 else 1
-      match (kept.filter (fun k => k.isPrefix && k.ty == other)).head? with
-      | some p =>
-        if p.isV6 != c.isV6 then exaAdd v6 kept cs
-        else exaAdd (v6 || c.isV6) (kept ++ [c]) cs
-      | none => exaAdd (v6 || c.isV6) (kept ++ [c]) cs
-    else exaAdd v6 (kept ++ [c]) cs
+/-- `Flow.settle_family`: the prefixes decide (destination list first, then source); without a
+    prefix the route is IPv6 iff some component's class exists for IPv6 only (`hint6`: next-header,
+    traffic-class, flow-label).  A prefix of the other family (`Flow.add` returns False and the
+    callers refuse) and components the family does not define are refused while parsing and never
+    reach `pack_nlri`. -/
+def exaFamily (hint6 : Bool) (text : List TComp) : Bool :=
+  match (text.filter (fun c => c.isPrefix && c.ty == 1) ++ text.filter (fun c => c.isPrefix && c.ty == 2)).head? with
+  | some p => p.isV6
+  | none => hint6
 
 /-- `IOperationByte/ByteShort/ByteShortLong.encode` by the class's largest size. -/
 def exaEncodeValue (maxW : Nat) (v : Int) : Except ExaErr (Nat × Bytes) :=
@@ -566,8 +560,9 @@ def exaEncodeLength (n : Nat) : Except ExaErr Bytes :=
 def allIds : List Nat := [1, 2, 3, 4, 5, 6, 7, 8, 9, 10, 11, 12, 13]
 
 /-- `Flow.pack_nlri` of the NLRI the text parser built: (AFI is IPv6, bytes). -/
-def exaPack (sizeOf : Nat → Nat) (rd : Option Bytes) (text : List TComp) : Except ExaErr (Bool × Bytes) :=
-  let (v6, kept) := exaAdd false [] text
+def exaPack (sizeOf : Nat → Nat) (hint6 : Bool) (rd : Option Bytes) (text : List TComp) : Except ExaErr (Bool × Bytes) :=
+  let v6 := exaFamily hint6 text
+  let kept := text
   match exaPackIds sizeOf kept allIds with
   | .error e => .error e
   | .ok comps =>
